@@ -703,7 +703,7 @@ func syncOvertake(m *meta, rng *rand.Rand, round int) {
 		}
 	})
 	p3 := stepUntil(3, -100)
-	stepUntil(2, -100) // the stalled producer publishes
+	stepUntil(2, -100)                                       // the stalled producer publishes
 	for i := 0; i < 20 && p3 != kioshun.VerifStepDone; i++ { // generous: a slow machine must not look like a hang
 		p3 = stepUntil(3, -100)
 	}
